@@ -1,7 +1,10 @@
 import os
 
+import l0_common
+
 ID = "C14"
 LEVEL = "proof"
+generate = l0_common.generate   # regenerates coq/Gen/GoArith.v from ../repo (Size.times is used by segmentSize)
 COQ_TARGETS = ["Props/Properties_C14.vo", "Extract/ExtractFrame.vo"]
 PROPS_FILES = ["Props/Properties_C14.v"]
 RUNS = [dict(name="frame", harness="c14", driver="frame", model_ml="frame_model")]
@@ -12,17 +15,18 @@ EXPLANATION = ("Theorems over all message lists / all byte strings / all chunkin
                "Encoder/Decoder/Marshal/Unmarshal on the same inputs and call histories (results, error class = which "
                "check fired, len/cap of segments, cap of the decoder's buffers through a verif hook, allocation predicate "
                "from runtime.MemStats).")
-TRUSTED = ["model coq/Frame/Frame.v hand-written from message.go (+ Size.times of address.go); io.ReadFull and the io.Reader "
-           "contract are modelled (chunk list + final error); errors are classified by the fixed message of the check that "
-           "fired (the library exposes nothing else) and io.EOF by identity",
-           "packed path: Decoder over packed.Reader is modelled as the Decoder over the unpacked stream of the C13 model "
-           "(stream_unpack); no theorem composes C13 and C14, the packed path is covered by the correspondence run only, "
-           "and only up to the first outcome that is not a message"]
+TRUSTED = ["model coq/Frame/Frame.v + coq/Frame/FramePacked.v hand-written from message.go (+ Size.times of address.go, "
+           "proved equal to the translated go_times); io.ReadFull and the io.Reader contract are modelled (chunk list + "
+           "final error; for the packed path the C13 model of packed.Reader.Read); errors are classified by the fixed "
+           "message of the check that fired (the library exposes nothing else) and io.EOF by identity",
+           "bufio.Reader is not modelled: its two answers to packed.Reader (Buffered() >= 9 / < 9) are oracles, the packed "
+           "theorems quantify over all oracles, the correspondence run fixes them to false",
+           "gotrans (translator of Size.times into coq/Gen/GoArith.v; its own translation validation belongs to the L0 check)"]
 MODELLED = ["io.ReadFull / io.Reader (chunk list, final error)", "Go allocator (only the sizes requested by make are modelled)",
             "bufio.Reader and packed.Reader (through the C13 model)", "net.Buffers.WriteTo in Encoder.write (modelled as "
             "writing the concatenation)"]
 ASSUMPTIONS = ["bytes are 0..255; int is 64 bit; MaxMessageSize is a uint64",
-               "decode_encode_stream / cut_is_error: every message has 1..513 segments and its frame fits MaxMessageSize "
+               "decode_encode_stream / cut_is_error and the packed counterparts: every message has 1..512 segments and its frame fits MaxMessageSize "
                "(otherwise the decoder refuses it, which alloc_bound covers)",
                "unmarshal_roundtrip: at most 2^30-1 segments (uint32 wrap of the table index beyond, observation O3)"]
 
@@ -78,15 +82,18 @@ LEVEL_TEXT = ("Proof: for all message lists, all chunkings of the byte stream, w
               "buffer state, Decode returns the messages Encode wrote, in order, then io.EOF; a stream ending strictly "
               "inside a frame yields an error, never io.EOF (every cut point is a boundary or inside one frame); for all "
               "input bytes and decoder states one Decode requests at most MaxMessageSize bytes of buffers, accepts at "
-              "most 513 segments (the code's check; the constant says 512) and never panics, also over whole "
-              "Decode/ReuseBuffer histories; Unmarshal(Marshal x)=x, Unmarshal never panics and allocates <= 6 bytes per "
-              "input byte. The model is tied to message.go by a differential run on message sequences, every/random cut "
-              "points, hostile headers, MaxMessageSize values, reuse histories, chunk sizes 1..17/4096, packed and "
-              "unpacked.")
-LEVEL_NOTE = ("Trusted: Coq kernel, extraction, harness; the model is hand-written (coq/Frame/Frame.v). The packed path "
-              "(NewPackedDecoder/NewPackedEncoder) is checked by correspondence only (no theorem composes C13 and C14). "
-              "One defect found and fixed (Encode accepted unaligned segments); observation O1 (513 segments) and O3 "
-              "(uint32 wrap of the table index for >= 2^30 segments, unreachable below 4 GiB of input) are stated as "
-              "theorems about the model.")
+              "most 512 segments and never panics, also over whole Decode/ReuseBuffer histories; Unmarshal(Marshal x)=x, "
+              "Unmarshal never panics and allocates <= 6 bytes per input byte. Packed paths (composition with C13, for "
+              "every bufio oracle): UnmarshalPacked(MarshalPacked x)=x; NewPackedDecoder returns what NewPackedEncoder "
+              "wrote, then io.EOF; a packed stream whose unpacked form ends inside a frame yields an error; a packed "
+              "stream cut inside a packed item never yields io.EOF before an error; all serialisation paths return the "
+              "same segments (all_paths_same_segments). The model is tied to message.go by a differential run on message "
+              "sequences, every/random cut points, hostile headers, MaxMessageSize values, reuse histories, chunk sizes "
+              "1..17/4096, packed and unpacked, and Size.times by the translator.")
+LEVEL_NOTE = ("Trusted: Coq kernel, extraction, harness; the models are hand-written (coq/Frame/Frame.v, FramePacked.v). "
+              "For a packed stream cut inside a packed item only 'no io.EOF before an error' is proved (C13's "
+              "specification does not constrain the bytes handed out before the error). Two defects found and fixed "
+              "(Encode accepted unaligned segments; Decode accepted 513 segments); observation O3 (uint32 wrap of the "
+              "table index for >= 2^30 segments, unreachable below 4 GiB of input) is stated as a theorem about the model.")
 TECHNIQUE = "Coq proof over an executable model + extracted-model/implementation differential run"
 DESIGN_REF = "DESIGN.md section 6, C14"
